@@ -5,6 +5,7 @@ import (
 	"fmt"
 	"io"
 	"math/rand/v2"
+	"strings"
 	"testing"
 
 	"golang.org/x/crypto/blake2b"
@@ -111,6 +112,9 @@ func (h *c06hist) read(rd *c06reader, n int) {
 			extra = map[string]any{}
 		}
 		extra["read_len"], extra["returned_n"], extra["returned_err"] = n, got, fmt.Sprint(err)
+		if rd.related && !strings.HasPrefix(key, "xof-wrong-output:") {
+			key += ":after-clone" // the reader is a clone or has been cloned
+		}
 		m.Violation(key, h.witness(rd, extra))
 		h.bad = true
 		rd.finished = true
